@@ -284,7 +284,7 @@ fn o9_2_can_merge_exact() {
     exactness(8, 8, 16, 16);
 }
 
-//@ harness: o9_2_can_merge_exact_48 props=C09,C03,C06 tier=thorough obl=O9.2 timeout=3400 mem=16
+//@ harness: o9_2_can_merge_exact_48 props=C09,C03,C06 tier=stretch obl=O9.2 timeout=3400 mem=16
 //@ desc: as o9_2_can_merge_exact with window 48x48 quarter units, lengths 1..48, offsets <= 400x200 cells
 //@ encodes: Line::can_merge, Line::is_touching, util::is_collinear
 #[kani::proof]
@@ -378,7 +378,7 @@ fn o6_1_touching_exact() {
     touching_exact(8, 8, 2);
 }
 
-//@ harness: o6_1_touching_exact_400 props=C06,C05,C10 tier=thorough obl=O6.1 timeout=3400 mem=16
+//@ harness: o6_1_touching_exact_400 props=C06,C05,C10 tier=stretch obl=O6.1 timeout=3400 mem=16
 //@ desc: as o6_1_touching_exact with all 4 direction classes at any cell offset k <= 400, n <= 200
 //@ encodes: Line::absolute_position, Line::is_touching, parry Segment::contains_point
 #[kani::proof]
